@@ -5,6 +5,9 @@ claimed = {
  "C03": ("model_checking", "Same cursor machine (Codec.tla) model-checked against Wire.tla; generated C + lib/c/bitproto.c is built with gcc per (optimisation level, build layout), driven through ctypes on seeded random schemas x values, and TLC decides every recorded Encode (memory image -> bytes), Decode (bytes -> memory image on a zeroed struct) and the storage width of every leaf against Wire!Enc/Dec/Storage.", "6 C03", "TLA+ Wire/Codec spec model-checked by TLC + trace validation of recorded C Encode/Decode calls"),
  "C05": ("model_checking", "TLC explores every history of <= 1-2 permitted evolution steps over U_small and checks that the decode machine of the older schema returns the restriction of the newer value (two wrong skip formulas are kept as negative controls that must be refuted); random evolution chains are compiled for real, newer-schema bytes (checked against Wire!Enc) are decoded by older-schema Python and C code and TLC decides each result against Wire!RestrictV/Dec.", "6 C05", "TLA+ Codec/Evolution model-checked by TLC + trace validation of cross-version decodes (Python and C)"),
  "C07": ("model_checking", "Design-level containment/footprint invariants of Codec.tla with garbage above every leaf (OnlyOwnSlot, EncRefines) are model-checked; size constants of every message in C/Go/Python are decided against NBytes by TLC; Python encodes of out-of-range integers and C encodes of arbitrary storage contents are decided against Enc(Trunc(raw)); C Encode/Decode run with struct and buffer flush against PROT_NONE pages (both ends) and under ASan/UBSan on exact-size heap objects, any fault becoming an event the spec has no action for.", "6 C07", "TLA+ spec model-checked by TLC + trace validation; guard-page and ASan/UBSan fault events"),
+ "C06": ("model_checking", "TLC explores BpCopyBufferBits completely (CCopy.tla: n<=80 x di x si, LE and BE variants, on provenance tags) and the big-endian staging of BpEndecodeBaseType (MC_Stage: widths 1..64 x offsets) and shows both variants produce the same wire; every BpCopyBufferBits call of the real -DBP_BIG_ENDIAN build, the U_full leaf space and an array-capacity sweep on big-endian-laid storage, and -O output under every --endian setting / preprocessor branch are recorded and decided by TLC against the CCopy machine and Wire.", "6 C06", "TLA+ CCopy/Stage spec model-checked by TLC + trace validation of the big-endian code paths"),
+ "C14": ("model_checking", "The complete finite space {bool, byte, uint1..64, int1..64} x offset 0..7 x {scalar, alias, array element incl. batch path, aliased array, array of alias} x basis values is executed in the Python runtime, the C runtime (LE and -DBP_BIG_ENDIAN builds) and -O output (both branches); TLC decides every recorded encode/decode against Wire and the design-level Codec/CCopy machines are model-checked.", "6 C14", "TLA+ Wire/Codec/CCopy spec model-checked by TLC + trace validation over the complete leaf space"),
+ "C16": ("model_checking", "Wire!JsonOf is model-checked (MC_Json: key order, JSON determines the value, ranges); Python to_json/to_dict and the generated C Json function are run on random schemas x values, the text is parsed with order preserved and TLC decides each tree against JsonOf.", "6 C16", "TLA+ JsonOf spec model-checked by TLC + trace validation of recorded JSON output (Python and C)"),
 }
 checks = []
 for pid, (cat, text, ref, tech) in sorted(claimed.items()):
